@@ -8,9 +8,13 @@ are by the same goroutine, and otherwise through a release of that mutex by the 
 a later acquire by the second. Hence every pair of conflicting accesses that the access table
 (Tie A) shows to be under the object's lock is race-free, for every schedule.
 
-What the theorem does not cover and the evidence names: accesses that are safe by ownership (an
-object not yet published) or by phase (wiring before any goroutine starts) — these are listed
-site by site in `Tie/C12.lean` — and the Go memory model itself (the race detector's
+`c12_channel_handover` / `c12_two_hops`: what an owner did to an object before it sent it on a channel
+happens before everything the receiver does after receiving that message, through any number of hops — the
+ownership discipline of IPs, tasks and parameter values travelling through ports needs no lock.
+
+What the theorems do not cover and the evidence names: that each site really follows one of the two
+disciplines (the access table shows the lock sites; the ownership and wiring-phase sites are listed site by
+site in `Tie/C12.lean`) — and the Go memory model itself (the race detector's
 happens-before analysis on real runs is the validation / search side).
 -/
 namespace SciVerif.Access
@@ -51,6 +55,8 @@ theorem holder_stays (tr : List Ev) (hwf : WF tr) (m a i : Nat) (hh : holderAt t
           exact absurd (by rw [List.getElem?_eq_getElem hq, hev]) (hno q (by omega) (by omega))
         · exact ihq
       | acc t x w => simpa [upd] using ihq
+      | snd t c k => simpa [upd] using ihq
+      | rcv t c k => simpa [upd] using ihq
     · have : i = q + 1 := by omega
       subst this; exact hh
 
@@ -81,6 +87,8 @@ theorem holder_needs_acq (tr : List Ev) (m b p : Nat) (hp : holderAt tr p m ≠ 
         · simp
         · exact ihq
       | acc t x w => simpa [upd] using ihq
+      | snd t c k => simpa [upd] using ihq
+      | rcv t c k => simpa [upd] using ihq
     · have : p = q + 1 := by omega
       subst this; exact hp
 
@@ -156,6 +164,72 @@ theorem c12_lockset (tr : List Ev) (hwf : WF tr) (i j a b x m : Nat) (w1 w2 : Bo
       simp at h5 hj_ev
       simp [h5, hj_ev, Ev.tid]
 
+/-- ownership handed over through a channel: what the sender did to an object before the `k`-th send on
+a channel happens before everything the receiver of that message does afterwards — so an object that is
+accessed only by its current owner (creator until it is sent, receiver from then on) is race-free without
+any lock. This is the discipline of IPs, tasks and parameter values travelling through ports. -/
+theorem c12_channel_handover (tr : List Ev) (p i j q a b x c k : Nat) (w1 w2 : Bool)
+    (hpi : p < i) (hij : i < j) (hjq : j < q) (hq : q < tr.length)
+    (hp_ev : tr[p]? = some (.acc a x w1)) (hi_ev : tr[i]? = some (.snd a c k))
+    (hj_ev : tr[j]? = some (.rcv b c k)) (hq_ev : tr[q]? = some (.acc b x w2)) : HB tr p q := by
+  have hp : p < tr.length := by omega
+  have hi : i < tr.length := by omega
+  have hj : j < tr.length := by omega
+  refine HB.trans (HB.po hpi hp hi ?_) (HB.trans (HB.chan hij hi_ev hj_ev) (HB.po hjq hj hq ?_))
+  · rw [List.getElem?_eq_getElem hp] at hp_ev
+    rw [List.getElem?_eq_getElem hi] at hi_ev
+    simp at hp_ev hi_ev
+    simp [hp_ev, hi_ev, Ev.tid]
+  · rw [List.getElem?_eq_getElem hj] at hj_ev
+    rw [List.getElem?_eq_getElem hq] at hq_ev
+    simp at hj_ev hq_ev
+    simp [hj_ev, hq_ev, Ev.tid]
+
+/-- two hops (source → process → downstream): the first owner's access before it passed the object on happens
+before the third owner's access after it received it, although the middle owner never touches a lock; longer
+chains compose in the same way (`HB.trans`) -/
+theorem c12_two_hops (tr : List Ev) (p i j i2 j2 q a b c3 x c k c' k' : Nat) (w1 w2 : Bool)
+    (h1 : p < i) (h2 : i < j) (h3 : j < i2) (h4 : i2 < j2) (h5 : j2 < q) (hq : q < tr.length)
+    (hp_ev : tr[p]? = some (.acc a x w1)) (hi_ev : tr[i]? = some (.snd a c k)) (hj_ev : tr[j]? = some (.rcv b c k))
+    (hi2_ev : tr[i2]? = some (.snd b c' k')) (hj2_ev : tr[j2]? = some (.rcv c3 c' k'))
+    (hq_ev : tr[q]? = some (.acc c3 x w2)) : HB tr p q := by
+  have hp : p < tr.length := by omega
+  have hi : i < tr.length := by omega
+  have hj : j < tr.length := by omega
+  have hi2 : i2 < tr.length := by omega
+  have hj2 : j2 < tr.length := by omega
+  have e1 : HB tr p i := by
+    apply HB.po h1 hp hi
+    rw [List.getElem?_eq_getElem hp] at hp_ev; rw [List.getElem?_eq_getElem hi] at hi_ev
+    simp at hp_ev hi_ev; simp [hp_ev, hi_ev, Ev.tid]
+  have e3 : HB tr j i2 := by
+    apply HB.po h3 hj hi2
+    rw [List.getElem?_eq_getElem hj] at hj_ev; rw [List.getElem?_eq_getElem hi2] at hi2_ev
+    simp at hj_ev hi2_ev; simp [hj_ev, hi2_ev, Ev.tid]
+  have e5 : HB tr j2 q := by
+    apply HB.po h5 hj2 hq
+    rw [List.getElem?_eq_getElem hj2] at hj2_ev; rw [List.getElem?_eq_getElem hq] at hq_ev
+    simp at hj2_ev hq_ev; simp [hj2_ev, hq_ev, Ev.tid]
+  exact HB.trans e1 (HB.trans (HB.chan h2 hi_ev hj_ev) (HB.trans e3 (HB.trans (HB.chan h4 hi2_ev hj2_ev) e5)))
+
+/-- non-vacuity of the hand-over theorem: an IP written by its creator, sent on a port, read by the receiver -/
+def demoChan : List Ev := [.acc 0 7 true, .snd 0 3 0, .rcv 1 3 0, .acc 1 7 false]
+example : demoChan[0]? = some (.acc 0 7 true) ∧ demoChan[1]? = some (.snd 0 3 0) ∧
+    demoChan[2]? = some (.rcv 1 3 0) ∧ demoChan[3]? = some (.acc 1 7 false) ∧ ChanWF demoChan := by
+  refine ⟨rfl, rfl, rfl, rfl, ?_⟩
+  intro j b c k h
+  have : j = 2 := by
+    match j with
+    | 0 => simp [demoChan] at h
+    | 1 => simp [demoChan] at h
+    | 2 => rfl
+    | 3 => simp [demoChan] at h
+    | j + 4 => simp [demoChan] at h
+  subst this
+  simp [demoChan] at h
+  obtain ⟨rfl, rfl, rfl⟩ := h
+  exact ⟨1, 0, by omega, rfl⟩
+
 /-- non-vacuity: a two-goroutine trace in which both access object 7 under mutex 1 is well formed -/
 def demo : List Ev := [.acq 0 1, .acc 0 7 true, .rel 0 1, .acq 1 1, .acc 1 7 false, .rel 1 1]
 example : holderAt demo 1 1 = some 0 ∧ holderAt demo 4 1 = some 1 := by decide
@@ -171,3 +245,5 @@ end SciVerif.Access
 #print axioms SciVerif.Access.holder_needs_acq
 #print axioms SciVerif.Access.handover
 #print axioms SciVerif.Access.c12_lockset
+#print axioms SciVerif.Access.c12_channel_handover
+#print axioms SciVerif.Access.c12_two_hops
